@@ -1024,7 +1024,7 @@ class Frame:
                 else:
                     cols = [cname for _, cname in e.columns_used()]
                     outs.append(('op', 'sql:' + e.text()[:30], tuple(('loc', table, cn.lower(), disc, '') for cn in cols)))
-            self.ip.reads.append((table, [o for o in outs], loc))
+            self.ip.reads.append((table, [o for o in outs], loc, dict(where), self.func))
             if s.sink is not None:
                 self.sink(s.sink, outs)
             return UNK
